@@ -661,11 +661,16 @@ def r5_application(rep, src):
     f_node, _inl = normalize.inline_helpers(f)        # the replacement of one range may sit in a private helper
     set_parents(f_node)
     f = Func(f.module, f_node, f.qual, f.cls)
-    loops = [s for s in f.node.body if isinstance(s, ast.For)]
-    if len(loops) != 1:
-        raise AnalysisError('%s: expected one loop' % f.site)
-    lp = loops[0]
     params = f.params()
+    loops = [s for s in f.node.body if isinstance(s, ast.For)]
+    if len(loops) > 1:
+        # several passes over the script: the one that changes the lines is judged (a pass that only inspects the commands decides
+        # nothing about the list as it is when a command is applied)
+        loops = [s for s in loops if any(isinstance(t_, ast.Subscript) and norm(t_.value) == params[0] and isinstance(t_.ctx, ast.Store) for t_ in ast.walk(s))
+                 or any(isinstance(c_, ast.Call) and isinstance(c_.func, ast.Attribute) and norm(c_.func.value) == params[0] for c_ in ast.walk(s))]
+    if len(loops) != 1:
+        raise AnalysisError('%s: expected one loop that changes the lines' % f.site)
+    lp = loops[0]
     why = 'the patches are not applied one by one in script order'
     # what the loop iterates over: the parameter itself, or the parameter materialised (list(p) / tuple(p), directly or through a local)
     pre = f.node.body[:f.node.body.index(lp)]
